@@ -39,7 +39,7 @@ def canon_panic(line):
         return rust_fn_at(m.group(1), int(m.group(2)))
     if rest in SPECIAL_SITES:
         return SPECIAL_SITES[rest]
-    return rest.split("::")[-1].split()[0] if rest else "?"
+    return rest.split("::")[-1].split()[0].rstrip(":") if rest else "?"
 
 
 def fields(line):
